@@ -70,6 +70,14 @@ class LSub3(LSub):
         self.k = k
 
 
+class Loose(Base):
+    """accepts arbitrary extra keyword arguments (the documented use of dict_kwargs)"""
+
+    def __init__(self, p: int = 1, **extra):
+        super().__init__(p)
+        self.extra = extra
+
+
 class LEnc:
     """source of a link whose value may be None (C15)"""
 
